@@ -5,10 +5,11 @@ C01 — a vector behaves like a plain sequence of tuples under any operation his
 and on the block; `VOp.spec` is the same operation on an ordinary `List` of tuples.  `Vec.abs` is what `operator[]`,
 `front()/back()`, iteration and `get<I>` read: through the locator, out of the block.
 
-Proven for every history (any length, any interleaving) and every parameter list, for value types that take the
-`memmove` relocation path (trivially move-constructible and destructible).  The element-wise relocation path of erase
-for non-trivial types is modelled and executed in the correspondence check but not covered by these theorems — hence
-`_partial` — and for the offset-table locator it genuinely fails (known finding KF-C06-overlapping-elementwise-relocation).
+Proven for every history (any length, any interleaving) and every parameter list.  Lists without VaryingSize (stride
+locator): all value types.  Lists with VaryingSize (offset-table locator): value types that take the `memmove`
+relocation path, and all value types on histories whose erases end at the end of the vector; the element-wise relocation
+of erase on this locator is modelled and executed in the correspondence check but not covered by a theorem — hence
+`_partial` — because it genuinely fails for overlapping moves (known finding KF-C06-overlapping-elementwise-relocation).
 -/
 import Cntgs.FixProofs
 import Cntgs.Dec
@@ -112,14 +113,14 @@ theorem validFix_of_counts (ps : List Param) (fs : List Nat) (hl : ListOK ps) (h
     | emplace e => exact fixed_fit ps fs hl hf hlf e hv.1.2
     | _ => trivial
 
-/-- **Lists without a VaryingSize parameter** (stride locator): the same statement. -/
-theorem history_stride_partial (ps : List Param) (fs : List Nat) (cap bytes : Nat) (junk : Nat → Nat)
+/-- **Lists without a VaryingSize parameter** (stride locator): the same statement, for **all** value types — both the
+    `memmove` path and the element-wise relocation path of erase are covered (`FixInv.history_all`). -/
+theorem history_stride (ps : List Param) (fs : List Nat) (cap bytes : Nat) (junk : Nat → Nat)
     (hl : ListOK ps) (hf : isFixedOrPlain ps = true) (hlf : ps.length ≤ fs.length)
-    (ht : (Vec.new ps fs cap bytes junk).trivialReloc = true)
     (ops : List VOp) (hv : ValidFixed ps fs [] ops) :
     obs (ops.foldl (VOp.apply junk) (Vec.new ps fs cap bytes junk)) = specObs (ops.foldl VOp.spec []) (ops.foldl capSpec cap) ∧
     (ops.foldl (VOp.apply junk) (Vec.new ps fs cap bytes junk)).poison = false := by
-  have h := (FixInv.new ps fs cap bytes junk hl hf hlf).history ht junk ops (validFix_of_counts ps fs hl hf hlf ops [] hv)
+  have h := (FixInv.new ps fs cap bytes junk hl hf hlf).history_all junk ops (validFix_of_counts ps fs hl hf hlf ops [] hv)
   rw [obs_of_fix h, history_cap]
   exact ⟨rfl, h.clean⟩
 
